@@ -3229,7 +3229,17 @@ def r12_7(prog, rep, rid='R12.7'):
                                      _is_idx(e.left)):
                             incs.add(x.id)
     # wrap tests: self._idx >= len(self._pids)
-    wraps, odd = [], []
+    wraps, odd, foreign = [], [], []
+
+    def len_of_other(e):
+        # len(self.<another container of the scheduler>): a bound that says
+        # nothing about the size of self._pids
+        if isinstance(e, ast.Call) and dotted(e.func) == 'len' and \
+                len(e.args) == 1 and not e.keywords and \
+                is_self_attr(e.args[0]) and e.args[0].attr != '_pids' and \
+                is_container_attr(e.args[0].attr):
+            return e.args[0].attr
+        return None
     for t in g.nodes:
         if t.kind != 'test':
             continue
@@ -3238,12 +3248,17 @@ def r12_7(prog, rep, rid='R12.7'):
             continue
         if isinstance(ta, ast.Compare) and len(ta.ops) == 1:
             l, r, op = ta.left, ta.comparators[0], type(ta.ops[0])
-            if is_len_pids(l) and _is_idx(r):
+            if (is_len_pids(l) or len_of_other(l)) and _is_idx(r):
                 l, r, op = r, l, _flip(ta.ops[0])
             if _is_idx(l) and is_len_pids(r):
                 if op is ast.GtE:
                     wraps.append(t)
                 continue                # a wrong test of the index: no wrap
+            if _is_idx(l) and len_of_other(r):
+                # the index is compared with the size of another container:
+                # not a wrap of an index into self._pids
+                foreign.append((t, len_of_other(r)))
+                continue
         odd.append(t)
     for u, s in uses:
         un = smap[id(u)]
@@ -3286,6 +3301,13 @@ def r12_7(prog, rep, rid='R12.7'):
             why = 'no test `self._idx >= len(self._pids)` with a reset to 0 ' \
                   '(and no `% len(self._pids)`) lies on every path to the ' \
                   'use (after the last change of the index)'
+            if not okay and foreign:
+                why += ' - the test `%s` compares the index with the size ' \
+                       'of self.%s, which also counts removed pilots and ' \
+                       'pilots only known from state notifications, so the ' \
+                       'index is not reset when it runs past self._pids' \
+                       % (short(test_expr(g, foreign[0][0]), 50),
+                          foreign[0][1])
             if not okay and odd:
                 raise AnalysisError(
                     'UNRECOGNISED-IDIOM %s: `%s` is not preceded by a wrap '
@@ -4134,6 +4156,661 @@ def r12_11(prog, rep, rid='R12.11'):
 
 
 # ------------------------------------------------------------------------------
+# R12.16  tasks wait only while no eligible pilot exists: the flag which is
+#         set in a loop over notifications and triggers self._schedule_tasks()
+#         after the loop accumulates over the iterations, and every debit of
+#         info['used'] sets it
+#
+def _flag_of_test(a):
+    """(name, polarity) for `if name` / `if not name` (else None)"""
+    pol = True
+    while isinstance(a, ast.UnaryOp) and isinstance(a.op, ast.Not):
+        a, pol = a.operand, not pol
+    if isinstance(a, ast.Name):
+        return a.id, pol
+    return None
+
+
+def _keeps_flag(v, flag, pol):
+    """the value expression cannot clear a flag that is set (set == pol):
+    `flag or X`, `X or flag`, `flag | X`, `True if X else flag`"""
+    if isinstance(v, ast.Name):
+        return v.id == flag
+    if isinstance(v, ast.Constant):
+        return v.value is pol
+    if isinstance(v, ast.BoolOp):
+        if isinstance(v.op, ast.Or) == pol:
+            return any(_keeps_flag(x, flag, pol) for x in v.values)
+        return all(_keeps_flag(x, flag, pol) for x in v.values)
+    if isinstance(v, ast.BinOp) and isinstance(v.op, (ast.BitOr, ast.BitAnd)):
+        arms = (v.left, v.right)
+        if isinstance(v.op, ast.BitOr) == pol:
+            return any(_keeps_flag(x, flag, pol) for x in arms)
+        return all(_keeps_flag(x, flag, pol) for x in arms)
+    if isinstance(v, ast.IfExp):
+        return _keeps_flag(v.body, flag, pol) and \
+            _keeps_flag(v.orelse, flag, pol)
+    return False
+
+
+def _iteration_value(v):
+    """the value is a test / a field computed from the data of the current
+    iteration alone (nothing a method call could hide)"""
+    for x in walk(v):
+        if isinstance(x, ast.Call) and not (
+                dotted(x.func) in ('bool', 'len', 'any', 'all', 'int') or
+                isinstance(x.func, ast.Attribute) and
+                x.func.attr in ('get', '_pilot_state_value',
+                                '_task_state_value')):
+            return False
+    return isinstance(v, (ast.Compare, ast.BoolOp, ast.UnaryOp, ast.Subscript,
+                          ast.Attribute, ast.Constant, ast.Call, ast.Name))
+
+
+def _trigger_flags(f, g, smap):
+    """{(flag, polarity): test node id} for the local flags whose test
+    controls a call of self._schedule_tasks()"""
+    out = {}
+    for c in calls_in(f.node):
+        if dotted(c.func) != 'self._schedule_tasks' or id(c) not in smap:
+            continue
+        for tid, lab in guards(g, smap[id(c)].id):
+            fp = _flag_of_test(g.nodes[tid].ast)
+            if fp is None or fp[0] in f.params:
+                continue
+            out[(fp[0], fp[1] == (lab == 'T'))] = tid
+    return out
+
+
+def r12_16(prog, rep, rid='R12.16'):
+    rep.rule(rid, 'the local flag that is set in a loop over notifications '
+             'and triggers self._schedule_tasks() after the loop accumulates '
+             "(no iteration clears what an earlier one set), and a debit of "
+             "info['used'] is followed by the reschedule on every path",
+             minimum=1)
+    seen = set()
+    for rel, cname in (BASE, RR, BF):
+        K = prog.cls(rel, cname)
+        for mname, f in sorted(K.methods.items()):
+            if id(f.node) in seen or mname in STARTUP:
+                continue
+            seen.add(id(f.node))
+            if not any(dotted(c.func) == 'self._schedule_tasks'
+                       for c in calls_in(f.node)):
+                continue
+            g = cfg_of(f)
+            smap = I.stmt_node_map(g)
+            flags = _trigger_flags(f, g, smap)
+            for (flag, pol), tid in sorted(flags.items()):
+                for x in g.nodes:
+                    if x.kind != 'stmt' or flag not in stores_of(x):
+                        continue
+                    # the loops the store lies in and the test does not
+                    outer = [h for h in x.loops
+                             if tid not in g.loop_body.get(h, ())]
+                    if not outer:
+                        continue
+                    rep.saw(f)
+                    h = outer[0]
+                    hdr = loop_views(g)[h].header if h in loop_views(g) \
+                        else short(g.nodes[h].ast, 40)
+                    a = x.ast
+                    if isinstance(a, ast.AugAssign):
+                        v = ast.BinOp(left=ast.Name(id=flag, ctx=ast.Load()),
+                                      op=a.op, right=a.value)
+                    else:
+                        v = assigned_value(a, flag)
+                    if v is None:
+                        raise AnalysisError(
+                            'UNRECOGNISED-IDIOM %s: `%s` binds the flag %r '
+                            'which triggers the reschedule'
+                            % (f.where, short(a, 40), flag))
+                    # a store which runs only while the flag is not set
+                    only_unset = any(
+                        _flag_of_test(g.nodes[t].ast) == (flag, pol) and
+                        lab == 'F' or
+                        _flag_of_test(g.nodes[t].ast) == (flag, not pol) and
+                        lab == 'T' for t, lab in guards(g, x.id))
+                    okay = only_unset or _keeps_flag(v, flag, pol)
+                    if not okay:
+                        tested_inside = any(
+                            n.kind == 'test' and n.id in g.loop_body[h] and
+                            _flag_of_test(n.ast) is not None and
+                            _flag_of_test(n.ast)[0] == flag for n in g.nodes)
+                        if tested_inside or not _iteration_value(v):
+                            raise AnalysisError(
+                                'UNRECOGNISED-IDIOM %s: `%s` in the loop `%s` '
+                                'binds the flag %r which triggers the '
+                                'reschedule after the loop to a value the '
+                                'recogniser cannot decide'
+                                % (f.where, short(a, 50), hdr, flag))
+                    rep.check(okay, rid, f, '%s.%s: `%s` in the loop `%s` '
+                              'cannot clear the flag which triggers '
+                              'self._schedule_tasks() after the loop'
+                              % (cname, mname, short(a, 40), hdr),
+                              construct='%s accumulates over `%s`'
+                              % (flag, hdr),
+                              message='%s.%s: the flag %r decides after the '
+                              'loop `%s` whether self._schedule_tasks() is '
+                              'called, but `%s` overwrites it in every '
+                              'iteration instead of accumulating (`%s = %s '
+                              '%s ...`): the last element of the bulk decides '
+                              'alone; a notification earlier in the bulk '
+                              'which freed room on a pilot (or named an '
+                              'eligible pilot) is forgotten, no reschedule '
+                              'happens and the tasks in the wait pool stay '
+                              'unbound although an added, active pilot is '
+                              'below its high-water mark'
+                              % (cname, mname, flag, hdr, short(a, 60), flag,
+                                 flag, 'or' if pol else 'and'),
+                              loc=f.loc(a),
+                              history='backfilling, pilot A full (4/4), pilot '
+                              'B above its mark (8/6), one task waits; one '
+                              'notification bulk [task of A DONE, task of B '
+                              'DONE]: A has room (3/4) but the flag holds the '
+                              'answer for B (7/6): no reschedule, the task '
+                              'keeps waiting')
+    # every debit reaches the reschedule
+    fu = prog.method(BF[0], BF[1], 'update_tasks')
+    rep.saw(fu)
+    g = cfg_of(fu)
+    smap = I.stmt_node_map(g)
+    debits = {d.id: d for d, _, _ in _usage_updates(prog, fu, ast.Sub)}
+    if not debits:
+        raise AnalysisError("UNRECOGNISED-IDIOM %s: debit of info['used'] not "
+                            'found' % fu.where)
+    sched = {smap[id(c)].id for c in calls_in(fu.node)
+             if dotted(c.func) == 'self._schedule_tasks' and id(c) in smap}
+    fnames = {k[0] for k in _trigger_flags(fu, g, smap)}
+
+    # nodes from which the return is reachable without the reschedule
+    escape = set()
+    todo = [g.exit.id]
+    while todo:
+        m = todo.pop()
+        if m in escape or m in sched:
+            continue
+        escape.add(m)
+        todo += [e.src for e in g.pred[m] if e.label != 'exc']
+    alive = set()                       # ... is reachable at all
+    todo = [g.exit.id]
+    while todo:
+        m = todo.pop()
+        if m not in alive:
+            alive.add(m)
+            todo += [e.src for e in g.pred[m] if e.label != 'exc']
+
+    def transfer(node, edge, st):
+        deb, fl, taint = st
+        a = node.ast
+        if node.kind == 'test' and edge.label in 'TF':
+            fp = _flag_of_test(a)
+            if fp is not None and fp[0] in fnames:
+                known = dict(fl).get(fp[0], 'U')
+                if known == 'U':
+                    taint = max(taint, 1)
+                elif (known == fp[1]) != (edge.label == 'T'):
+                    return None
+            elif deb is not None and len(
+                    {e.dst in escape for e in g.succ[node.id]
+                     if e.label in 'TF' and e.dst in alive}) == 2:
+                # a test other than a flag decides whether the reschedule
+                # is reached
+                taint = 2
+        if edge.label == 'exc':
+            return (deb, fl, taint)
+        if node.kind == 'stmt':
+            hit = set(stores_of(node)) & fnames
+            if hit:
+                dfl = dict(fl)
+                for name in hit:
+                    v = assigned_value(a, name)
+                    dfl[name] = v.value if isinstance(v, ast.Constant) and \
+                        isinstance(v.value, bool) else 'U'
+                fl = tuple(sorted(dfl.items()))
+            if node.id in debits:
+                deb = node.id
+            if node.id in sched:
+                deb = None
+        return (deb, fl, taint)
+
+    ex = Exploration(g, g.entry.id, (None, (), 0), transfer)
+    for did, d in sorted(debits.items()):
+        lost = [t for t in ex.terminals if t.node == g.exit.id and
+                t.state[0] == did and not t.state[2]]
+        odd = [t for t in ex.terminals if t.node == g.exit.id and
+               t.state[0] == did and t.state[2] == 2]
+        if odd and not lost:
+            raise AnalysisError(
+                'UNRECOGNISED-IDIOM %s: whether self._schedule_tasks() is '
+                'called after the debit `%s` is decided by a test which is '
+                'not a boolean flag (%s)'
+                % (fu.where, short(d.ast, 40),
+                   ' ; '.join(ex.literals(odd[0])[-2:])))
+        rep.check(not lost, rid, fu, 'Backfilling.update_tasks: every path '
+                  'from the debit `%s` to the return calls '
+                  'self._schedule_tasks()' % short(d.ast, 40),
+                  construct='%s [followed by the reschedule]'
+                  % short(d.ast, 70),
+                  message="Backfilling.update_tasks: after the debit `%s` "
+                  'the function can return without a call of '
+                  'self._schedule_tasks() (path: %s): the pilot has room '
+                  'again, but the tasks in the wait pool are not looked at - '
+                  'they stay unbound although an eligible pilot exists'
+                  % (short(d.ast, 50),
+                     ' ; '.join(ex.literals(lost[0])[-4:]) if lost else ''),
+                  loc=fu.loc(d.ast),
+                  history='backfilling, one pilot at its high-water mark, one '
+                  'task waits; a task of the pilot ends DONE: used drops '
+                  'below the mark but the waiting task is not scheduled')
+
+
+# ------------------------------------------------------------------------------
+# R12.17  the pilots TaskManager.add_pilots / remove_pilots names in the
+#         command are exactly those it put into / took out of its own table
+#
+def _table_updates(g, body, attr, kind):
+    """{cfg node id: key expr}: `del self.<attr>[K]` / `self.<attr>.pop(K)`
+    (kind 'del') or `self.<attr>[K] = ..` (kind 'put') among the nodes"""
+    out = {}
+    for m in body:
+        n = g.nodes[m]
+        if n.kind != 'stmt' or n.ast is None:
+            continue
+        for k, t, st in I.stores(n.ast):
+            if kind == 'del' and k == 'del' and isinstance(t, ast.Subscript) \
+                    and is_self_attr(t.value, attr):
+                out[m] = t.slice
+            elif kind == 'del' and k == 'mutate' and is_self_attr(t, attr) and \
+                    isinstance(st.func, ast.Attribute) and \
+                    st.func.attr == 'pop' and st.args:
+                out[m] = st.args[0]
+            elif kind == 'put' and k == 'assign' and \
+                    isinstance(t, ast.Subscript) and \
+                    is_self_attr(t.value, attr):
+                out[m] = t.slice
+    return out
+
+
+def _strict_consumer(prog, api):
+    """control_cb raises on some path of the branch which handles the
+    command: one element it does not accept and the whole command (also the
+    elements after it) is dropped"""
+    f = prog.method(BASE[0], BASE[1], 'control_cb')
+    g = cfg_of(f)
+    cmdv = _msg_vars(f, 'cmd')
+    for n in g.nodes:
+        if n.kind == 'stmt' and isinstance(n.ast, ast.Raise):
+            vals = _cmd_values(prog, f, g, n, cmdv)
+            if vals is not None and api in vals:
+                return True
+    return False
+
+
+def r12_17(prog, rep, rid='R12.17'):
+    rep.rule(rid, 'TaskManager.add_pilots / remove_pilots: the list of pilots '
+             'published with the command holds exactly the pilots the method '
+             'stored in / deleted from self._pilots (every iteration that '
+             'does not raise does both or neither)', minimum=2)
+    tm = prog.cls(*TMGR)
+    pubs = _cmd_messages(prog, tm)
+    for api, kind in (('add_pilots', 'put'), ('remove_pilots', 'del')):
+        pf = prog.find_method(tm, api)
+        if pf is None:
+            raise AnalysisError('anchor TaskManager.%s not found' % api)
+        rep.saw(pf)
+        g = cfg_of(pf)
+        smap = I.stmt_node_map(g)
+        mine = [d for (xf, d, cmd, akeys) in pubs if xf is pf and cmd == api]
+        if not mine:
+            continue                    # another command: R12.15
+        if not _strict_consumer(prog, api):
+            rep.ok(rid, pf, 'control_cb never raises for the command %r: an '
+                   'element it does not know is skipped' % api, pf.loc(pf.node))
+            continue
+        for d in mine:
+            if id(d) not in smap:
+                raise AnalysisError('UNRECOGNISED-IDIOM %s: message built '
+                                    'outside of a statement' % pf.where)
+            pn = smap[id(d)]
+            arg = dict_field(d, 'arg')
+            if isinstance(arg, ast.Name):
+                fd = fresh_dict(g, arg, pn.id)
+                arg = fd[0] if fd and len(fd) == 1 else None
+            if not isinstance(arg, ast.Dict):
+                raise AnalysisError("UNRECOGNISED-IDIOM %s: the 'arg' of the "
+                                    'command is not a dict display' % pf.where)
+            lists = []
+            for k, v in zip(arg.keys, arg.values):
+                v = strip_copy(v)
+                if isinstance(v, ast.Name) and v.id != 'self':
+                    lists.append((k.value if isinstance(k, ast.Constant)
+                                  else unparse(k), v))
+            if not lists:
+                raise AnalysisError('UNRECOGNISED-IDIOM %s: the command names '
+                                    'no local list of pilots' % pf.where)
+            views = loop_views(g)
+            for key, P in lists:
+                pdefs = {x.id for x in defs_reaching(g, P.id, pn.id)[0]}
+                # (a) the published list is the one the loop walks
+                walked = [lv for h, lv in sorted(views.items())
+                          if lv.form in ('for', 'range') and
+                          isinstance(strip_copy(lv.iter), ast.Name) and
+                          strip_copy(lv.iter).id == P.id and
+                          pn.id not in g.loop_body[h]]
+                # (b) the published list is filled in the loop
+                filled = {}
+                for c in calls_in(pf.node):
+                    if isinstance(c.func, ast.Attribute) and \
+                            c.func.attr == 'append' and \
+                            isinstance(c.func.value, ast.Name) and \
+                            c.func.value.id == P.id and id(c) in smap and \
+                            smap[id(c)].loops:
+                        filled.setdefault(smap[id(c)].loops[0],
+                                          set()).add(smap[id(c)].id)
+                if filled:
+                    vals = [assigned_value(g.nodes[x].ast, P.id)
+                            for x in pdefs]
+                    if len(filled) != 1 or not all(
+                            v is not None and is_empty_ctor(v) for v in vals):
+                        raise AnalysisError(
+                            'UNRECOGNISED-IDIOM %s: the published list %r is '
+                            'not an empty list filled in one loop'
+                            % (pf.where, P.id))
+                    h = list(filled)[0]
+                    apps = filled[h]
+                    if h not in views:
+                        raise AnalysisError('UNRECOGNISED-IDIOM %s: loop form'
+                                            % pf.where)
+                    lv = views[h]
+                elif len(walked) == 1:
+                    lv, h, apps = walked[0], walked[0].id, None
+                    ldefs = {x.id for x in defs_reaching(g, P.id, h)[0]}
+                    if ldefs != pdefs:
+                        raise AnalysisError(
+                            'UNRECOGNISED-IDIOM %s: the list %r is rebound '
+                            'between the loop and the message'
+                            % (pf.where, P.id))
+                else:
+                    raise AnalysisError(
+                        'UNRECOGNISED-IDIOM %s: the published list %r is '
+                        'neither walked by one loop of the method nor filled '
+                        'in one' % (pf.where, P.id))
+                ups = _table_updates(g, g.loop_body[h], '_pilots', kind)
+                if not ups:
+                    raise AnalysisError(
+                        'UNRECOGNISED-IDIOM %s: the loop `%s` does not update '
+                        'self._pilots' % (pf.where, lv.header))
+                if apps is None:
+                    for m, K in sorted(ups.items()):
+                        kk = resolve_local(g, K, m)
+                        if not (isinstance(kk, ast.Name) and
+                                kk.id in lv.names):
+                            raise AnalysisError(
+                                'UNRECOGNISED-IDIOM %s: `%s` is not keyed by '
+                                'the element of `%s`'
+                                % (pf.where, short(g.nodes[m].ast, 40),
+                                   lv.header))
+                start, stop, stop_edge = loop_slice(g, h)
+
+                def transfer(node, edge, st, ups=ups, apps=apps):
+                    u, a = st
+                    if edge.label == 'exc':
+                        return st
+                    if node.id in ups:
+                        u = True
+                    if apps is not None and node.id in apps:
+                        a = True
+                    return (u, a)
+                ex = Exploration(g, start, (False, apps is None), transfer,
+                                 stop=stop, stop_edge=stop_edge)
+                told = [t for t in ex.terminals if t.node != g.raise_.id
+                        and t.state[1] and not t.state[0]]
+                kept = [t for t in ex.terminals if t.node != g.raise_.id
+                        and t.state[0] and not t.state[1]]
+                done = 'removed from' if kind == 'del' else 'stored in'
+                w = told[0] if told else kept[0] if kept else None
+                rep.check(not told and not kept, rid, pf,
+                          'TaskManager.%s: every iteration of `%s` that does '
+                          'not raise has the pilot %s self._pilots%s; the '
+                          "command carries that list as arg['%s']"
+                          % (api, lv.header, done, '' if apps is None else
+                             ' and appended to %s' % P.id, key),
+                          construct="TaskManager.%s: arg['%s'] == pilots %s "
+                          'self._pilots' % (api, key, done),
+                          message="TaskManager.%s publishes the command %r "
+                          "with arg['%s'] = %s, but an iteration of `%s` can "
+                          'end normally (path: %s) %s: the task manager and '
+                          'the scheduler disagree on the pilot set - '
+                          'control_cb of the scheduler raises on the pilot it '
+                          'does not expect and drops the whole command, so %s'
+                          % (api, api, key, P.id, lv.header,
+                             ' ; '.join(ex.literals(w)[-3:]) if w else '',
+                             ('with the pilot named in the command but not '
+                              '%s self._pilots' % done) if told else
+                             ('with the pilot %s self._pilots but not named '
+                              'in the command' % done),
+                             'the pilots which the task manager did remove '
+                             'keep role ADDED, stay in self._pids and still '
+                             'receive tasks' if kind == 'del' else
+                             'the pilots which the task manager did add are '
+                             'never used: tasks wait although an added pilot '
+                             'exists'),
+                          loc=pf.loc(lv.ast),
+                          history="add_pilots([p0, p1]); remove_pilots(['pX', "
+                          "'p1']) with pX unknown to the task manager: p1 is "
+                          'dropped by the task manager, the scheduler raises '
+                          'on pX before it marks p1 REMOVED; of the next four '
+                          'tasks two are bound to p1' if kind == 'del' else
+                          'add_pilots([p0, p1]) where p0 is skipped locally '
+                          'but published: control_cb raises, p1 is never used')
+
+
+# ------------------------------------------------------------------------------
+# R12.18  a value the Session caches for _assign_pilot and which is computed
+#         from the identity of the pilot (pilot['uid']) is cached under a key
+#         computed from that identity
+#
+IDENTITY = ('uid',)
+
+
+def _field_path(e, roots):
+    """(root parameter, (key, ..)) for root['a'].get('b') .. (else None)"""
+    if isinstance(e, ast.Name):
+        return (roots[e.id], ()) if e.id in roots else None
+    if isinstance(e, ast.Subscript) and isinstance(e.slice, ast.Constant):
+        p = _field_path(e.value, roots)
+        return None if p is None else (p[0], p[1] + (e.slice.value,))
+    if isinstance(e, ast.Call) and isinstance(e.func, ast.Attribute) and \
+            e.func.attr == 'get' and e.args and \
+            isinstance(e.args[0], ast.Constant):
+        p = _field_path(e.func.value, roots)
+        return None if p is None else (p[0], p[1] + (e.args[0].value,))
+    return None
+
+
+def _binding_stmts(f):
+    """[(bound root names, [value expressions])] of the statements of f"""
+    out = []
+    for n in walk(f.node):
+        if isinstance(n, ast.Assign):
+            names = set()
+            extra = []
+            for t in n.targets:
+                for e in I._flat(t):
+                    names.add(root_name(e))
+                    if isinstance(e, ast.Subscript):
+                        extra.append(e.slice)
+            out.append((names, [n.value] + extra))
+        elif isinstance(n, (ast.AugAssign, ast.AnnAssign)) and \
+                n.value is not None:
+            out.append(({root_name(n.target)}, [n.value]))
+        elif isinstance(n, ast.For):
+            out.append((set(stores_in_target(n.target)), [n.iter]))
+        elif isinstance(n, ast.Expr) and isinstance(n.value, ast.Call) and \
+                isinstance(n.value.func, ast.Attribute) and \
+                n.value.func.attr in MUTATORS:
+            out.append(({root_name(n.value.func.value)},
+                        list(n.value.args)))
+    return out
+
+
+def _param_reads(prog, cls, f, exprs, depth=0, seen=None):
+    """(field paths of the parameters of f which the expressions are computed
+    from - through the locals of f, flow-insensitively, and through the
+    methods of the class which are handed a parameter whole -, calls outside
+    of the class which are handed a parameter whole)"""
+    seen = set() if seen is None else seen
+    params = [p for p in f.params if p != 'self']
+    roots = {p: p for p in params}
+    binds = _binding_stmts(f)
+    for _ in range(3):                  # plain aliases of a parameter
+        for names, vals in binds:
+            if len(vals) == 1 and isinstance(vals[0], ast.Name) and \
+                    vals[0].id in roots and len(names) == 1:
+                roots.setdefault(list(names)[0], roots[vals[0].id])
+    todo = list(exprs)
+    names, reads, foreign = set(), set(), []
+    while todo:
+        e = todo.pop()
+        for x in walk(e):
+            p = _field_path(x, roots)
+            if p is not None and p[1]:
+                reads.add(p)
+            if isinstance(x, ast.Name) and x.id not in names and \
+                    x.id != 'self':
+                names.add(x.id)
+                for bound, vals in binds:
+                    if x.id in bound:
+                        todo += vals
+            if isinstance(x, ast.Call):
+                whole = [(i, a) for i, a in enumerate(x.args)
+                         if isinstance(a, ast.Name) and a.id in roots]
+                if not whole:
+                    continue
+                m = None
+                if isinstance(x.func, ast.Attribute) and \
+                        isinstance(x.func.value, ast.Name) and \
+                        x.func.value.id == 'self':
+                    m = prog.find_method(cls, x.func.attr)
+                if m is None:
+                    if dotted(x.func) not in PURE:
+                        foreign.append(x)
+                    continue
+                if id(m.node) in seen or depth > 4:
+                    continue
+                seen.add(id(m.node))
+                mp = [p for p in m.params if p != 'self']
+                body = [s for s in m.node.body]
+                sub, fo = _param_reads(prog, cls, m, body, depth + 1, seen)
+                foreign += fo
+                for i, a in whole:
+                    if i < len(mp):
+                        reads |= {(roots[a.id], path) for r, path in sub
+                                  if r == mp[i]}
+    return reads, foreign
+
+
+def _cache_fills(f):
+    """[(assignment / call, section constant, key expr, value expr)]: stores
+    self._cache[<section>][K] = V (also through a local bound to the
+    section, and .setdefault(K, V))"""
+    single = {}
+    for n in walk(f.node):
+        if isinstance(n, ast.Assign) and len(n.targets) == 1 and \
+                isinstance(n.targets[0], ast.Name):
+            single.setdefault(n.targets[0].id, []).append(n.value)
+
+    def section(b):
+        if isinstance(b, ast.Name) and len(single.get(b.id, ())) == 1:
+            b = single[b.id][0]
+        if isinstance(b, ast.Subscript) and is_self_attr(b.value, '_cache') \
+                and isinstance(b.slice, ast.Constant):
+            return b.slice.value
+        return None
+    out = []
+    for n in walk(f.node):
+        if isinstance(n, ast.Assign):
+            for t in n.targets:
+                if isinstance(t, ast.Subscript) and \
+                        section(t.value) is not None:
+                    out.append((n, section(t.value), t.slice, n.value))
+        elif isinstance(n, ast.Call) and isinstance(n.func, ast.Attribute) \
+                and n.func.attr == 'setdefault' and len(n.args) == 2 and \
+                section(n.func.value) is not None:
+            out.append((n, section(n.func.value), n.args[0], n.args[1]))
+    return out
+
+
+def r12_18(prog, rep, rid='R12.18'):
+    from . import c11
+    rep.rule(rid, 'a value the Session caches for _assign_pilot which is '
+             "computed from the identity of the pilot (pilot['uid']) is "
+             'cached under a key computed from that identity', minimum=3)
+    f = prog.method(BASE[0], BASE[1], '_assign_pilot')
+    S = prog.cls(*c11.SESSION)
+    getters = c11.cached_getters(prog, S)
+    todo = sorted({c.func.attr for c in calls_in(f.node)
+                   if isinstance(c.func, ast.Attribute) and
+                   c.func.attr in getters})
+    # the getters those call in turn
+    done = []
+    while todo:
+        name = todo.pop(0)
+        if name in done:
+            continue
+        done.append(name)
+        for c in calls_in(getters[name].node):
+            if isinstance(c.func, ast.Attribute) and c.func.attr in getters \
+                    and c.func.attr not in done:
+                todo.append(c.func.attr)
+    n = 0
+    for name in sorted(done):
+        m = getters[name]
+        for st, sec, K, V in _cache_fills(m):
+            n += 1
+            rep.saw(m)
+            vreads, _ = _param_reads(prog, S, m, [V])
+            kreads, kforeign = _param_reads(prog, S, m, [K])
+            per_pilot = sorted(r for r, path in vreads if path == IDENTITY)
+            if not per_pilot:
+                rep.ok(rid, m, 'Session.%s: the value cached in %r is not '
+                       'computed from the identity of a pilot' % (name, sec),
+                       m.loc(st))
+                continue
+            if kforeign:
+                raise AnalysisError(
+                    'UNRECOGNISED-IDIOM %s: the cache key `%s` is computed by '
+                    '`%s`, a call the recogniser cannot look into'
+                    % (m.where, short(K, 40), short(kforeign[0], 40)))
+            okay = all((r, IDENTITY) in kreads for r in per_pilot)
+            kdesc = ', '.join(sorted("%s[%s]" % (r, ']['.join(
+                repr(k) for k in path)) for r, path in kreads)) or 'constant'
+            rep.check(okay, rid, m, "Session.%s: the entry of %r is computed "
+                      "from %s['uid'] and keyed by it" % (name, sec,
+                                                          per_pilot[0]),
+                      construct="self._cache[%r] keyed by the pilot identity"
+                      % sec,
+                      message="Session.%s caches under self._cache[%r][%s] a "
+                      "value which is computed from %s['uid'], but the key is "
+                      'computed from %s only: the second pilot with the same '
+                      'key gets the entry of the first. _assign_pilot takes '
+                      'the sandboxes of a task from this getter (Pilot.'
+                      '__init__ takes its own from it and hands it on in '
+                      "as_dict()), so a task bound to one pilot (task['pilot']"
+                      ') carries the pilot / task sandboxes of another pilot'
+                      % (name, sec, short(K, 30), per_pilot[0], kdesc),
+                      loc=m.loc(st),
+                      history='two pilots p0, p1 on the same resource, '
+                      'RoundRobin, four tasks: tasks 1 and 3 are bound to p1 '
+                      'but their pilot_sandbox / task_sandbox lie under '
+                      '.../p0/')
+    if not n:
+        raise AnalysisError('UNRECOGNISED-IDIOM %s: no getter used by '
+                            '_assign_pilot fills self._cache' % c11.SESSION[1])
+
+
+# ------------------------------------------------------------------------------
 # R12.12  sandbox derivation of _assign_pilot: the URLs a Session keeps in its
 #         cache are copied before they are extended (R11.6b re-evaluated)
 #
@@ -4184,7 +4861,13 @@ def run(prog, rep, tier):
         'states beyond AGENT_EXECUTING, including every final state '
         '(evaluated over the state table); the Session getters that '
         '_assign_pilot derives the sandboxes from never change a cached URL '
-        'through an alias (R11.6b re-evaluated as R12.12).')
+        'through an alias (R11.6b re-evaluated as R12.12); the flag which '
+        'triggers the reschedule after a notification loop accumulates over '
+        "the iterations and every debit of info['used'] reaches the "
+        'reschedule (R12.16); the pilots TaskManager.add_pilots / '
+        'remove_pilots names in the command are exactly those it stored in / '
+        'deleted from its own table (R12.17); a cached Session value computed '
+        "from pilot['uid'] is keyed by pilot['uid'] (R12.18).")
     rep.undecided = ('interleavings of control messages, state notifications '
         'and the work callback (the three callbacks take different locks); '
         'whether task state notifications of early-bound tasks are consistent '
@@ -4228,7 +4911,8 @@ def run(prog, rep, tier):
     # (exit 2) unless another rule has a finding (main._try)
     for rule in (r12_1, r12_2, r12_3, sites, r12_5, r12_6, r12_7, r12_8,
                  r12_9, r12_10, r12_11, r12_12, r12_13, r12_14,
-                 r12_15):
+                 r12_15, r12_16, r12_17,
+                 r12_18):
         rep.attempt(rule, prog, rep)
     if tier == 'thorough':
         rep.rule('R12.4s', 'sweep of R12.4 over every class of the package that '
@@ -5100,4 +5784,129 @@ SILENT += [
         (_B, "        if cmd == 'add_pilots':\n", "        if cmd == _CMD_ADD:\n"),
         (_B, "        elif cmd == 'remove_pilots':\n", "        elif cmd == _CMD_REMOVE:\n"),
         (_B, "ADDED   = 'added'\n", "ADDED   = 'added'\n_CMD_ADD = 'add_pilots'\n_CMD_REMOVE = 'remove_pilots'\n")]),
+]
+
+
+# ------------------------------------------------------------------------------
+# round 6: R12.7 (wrap test against another container), R12.16, R12.17, R12.18
+#
+_R_WRAP = "                    if self._idx >= len(self._pids):\n"
+_F_SET  = "                reschedule = True\n"
+_T_CHK  = ("                if pid not in self._pilots:\n"
+           "                    raise ValueError('pilot %s not removed' % pid)\n"
+           "                del self._pilots[pid]\n")
+_T_PUB  = ("                                          'arg' : {'pids'  : pilot_ids,\n")
+_T_STORE = ("                self._pilots[pid] = pilot\n"
+            "                pilot_docs.append(pilot_dict)\n")
+_S_PID  = ("        pid = pilot['uid']\n"
+           "        with self._cache_lock:\n\n"
+           "            if pid not in self._cache['pilot_sandbox']:\n")
+_S_FILL = ("                self._cache['pilot_sandbox'][pid] = pilot_sandbox\n\n"
+           "            return self._cache['pilot_sandbox'][pid]\n")
+_S_PATH = "                pilot_sandbox.path += '/%s/' % pilot['uid']\n"
+
+MUTATIONS += [
+    dict(name='corpus i2: round-robin index wrapped against len(self._pilots)', rules=('R12.7',), edits=[
+        (_R, _R_WRAP, "                    if self._idx >= len(self._pilots):\n")]),
+    dict(name='R12.7 wrap bound len(self._pilots) hoisted into a local, operands swapped', rules=('R12.7',), edits=[
+        (_R, _R_WRAP, "                    known = len(self._pilots)\n"
+                      "                    if known <= self._idx:\n")]),
+    dict(name='corpus i5: reschedule flag overwritten by the room test of the last task', rules=('R12.16',), edits=[
+        (_F, _F_SET, "                reschedule = info['used'] < info['hwm']\n")]),
+    dict(name='R12.16 reschedule flag set / cleared by an if-else per task', rules=('R12.16',), edits=[
+        (_F, _F_SET, "                if info['used'] < info['hwm']:\n"
+                     "                    reschedule = True\n"
+                     "                else:\n"
+                     "                    reschedule = False\n")]),
+    dict(name='R12.16 debit no longer sets the reschedule flag', rules=('R12.16',), edits=[
+        (_F, _F_SET, "")]),
+    dict(name='R12.16 update_pilots: flag overwritten per pilot, no break', rules=('R12.16',), edits=[
+        (_F, "                action = True\n                break\n",
+             "                action = True\n"),
+        (_F, "                  # self._log.debug('early')\n                    # not eligible, yet\n                    continue\n",
+             "                    action = False\n                    continue\n")],
+         note='the window test of the last pilot of the bulk decides alone'),
+    dict(name='corpus i6: remove_pilots skips unknown pilots locally, publishes the unfiltered list', rules=('R12.17',), edits=[
+        (_T, "                    raise ValueError('pilot %s not removed' % pid)\n",
+             "                    self._log.warn('pilot %s not known - ignored', pid)\n"
+             "                    continue\n")]),
+    dict(name='R12.17 remove_pilots deletes only known pilots (positive guard), publishes all', rules=('R12.17',), edits=[
+        (_T, _T_CHK, "                if pid in self._pilots:\n"
+                     "                    del self._pilots[pid]\n")]),
+    dict(name='R12.17 add_pilots skips a known pilot locally but publishes its document', rules=('R12.17',), edits=[
+        (_T, "                    raise ValueError('pilot %s already added' % pid)\n" + _T_STORE,
+             "                    self._log.warn('pilot %s already added', pid)\n"
+             "                else:\n"
+             "                    self._pilots[pid] = pilot\n"
+             "                pilot_docs.append(pilot_dict)\n")]),
+    dict(name='corpus i4: pilot sandbox cached by resource', rules=('R12.18',), edits=[
+        (_S, _S_PID, _S_PID.replace("pid = pilot['uid']", "resource = pilot['description'].get('resource')")
+                           .replace("if pid not", "if resource not")),
+        (_S, _S_FILL, _S_FILL.replace("[pid]", "[resource]"))]),
+    dict(name='R12.18 pilot sandbox cached under (resource, schema), uid read into a local first', rules=('R12.18',), edits=[
+        (_S, _S_PID, _S_PID.replace("pid = pilot['uid']",
+                                    "uid = pilot['uid']\n"
+                                    "        pid = (pilot['description'].get('resource'),\n"
+                                    "               pilot['description'].get('access_schema'))")),
+        (_S, _S_PATH, "                pilot_sandbox.path += '/%s/' % uid\n")]),
+]
+
+SILENT += [
+    dict(name='RoundRobin: wrap bound hoisted into a local', edits=[
+        (_R, _R_WRAP, "                    n_pids = len(self._pids)\n"
+                      "                    if self._idx >= n_pids:\n")]),
+    dict(name='Backfilling.update_tasks: reschedule flag or-ed with the room test', edits=[
+        (_F, _F_SET, "                reschedule = reschedule or info['used'] < info['hwm']\n")]),
+    dict(name='Backfilling.update_tasks: reschedule flag set under `if not reschedule`', edits=[
+        (_F, _F_SET, "                if not reschedule:\n"
+                     "                    reschedule = True\n")]),
+    dict(name='Backfilling.update_tasks: flag set before the debit, |= True', edits=[
+        (_F, _F_SET, ""),
+        (_F, "                info['done'].append(uid)\n",
+             "                reschedule |= True\n                info['done'].append(uid)\n")]),
+    dict(name='Backfilling.update_tasks: no flag, reschedule after every bulk', edits=[
+        (_F, "        reschedule = False\n", ""),
+        (_F, _F_SET, ""),
+        (_F, "        if reschedule:\n            self._log.debug('upd tasks -> schedule')\n            self._schedule_tasks()\n",
+             "        self._log.debug('upd tasks -> schedule')\n        self._schedule_tasks()\n")]),
+    dict(name='Backfilling.update_tasks: flag tested in guard-clause form', edits=[
+        (_F, "        if reschedule:\n            self._log.debug('upd tasks -> schedule')\n            self._schedule_tasks()\n",
+             "        if not reschedule:\n            return\n\n        self._log.debug('upd tasks -> schedule')\n        self._schedule_tasks()\n")]),
+    dict(name='TaskManager.remove_pilots: removed ids collected and published', edits=[
+        (_T, _T_CHK, _T_CHK + "                removed.append(pid)\n"),
+        (_T, "            # sanity check, and keep pilots around for inspection\n            for pid in pilot_ids:\n",
+             "            removed = list()\n            for pid in pilot_ids:\n"),
+        (_T, _T_PUB, _T_PUB.replace("pilot_ids", "removed"))]),
+    dict(name='TaskManager.remove_pilots: tolerant, but publishes only what it removed', edits=[
+        (_T, _T_CHK, "                if pid not in self._pilots:\n"
+                     "                    self._log.warn('pilot %s not known - ignored', pid)\n"
+                     "                    continue\n"
+                     "                del self._pilots[pid]\n"
+                     "                removed.append(pid)\n"),
+        (_T, "            # sanity check, and keep pilots around for inspection\n            for pid in pilot_ids:\n",
+             "            removed = list()\n            for pid in pilot_ids:\n"),
+        (_T, _T_PUB, _T_PUB.replace("pilot_ids", "removed"))]),
+    dict(name='TaskManager.remove_pilots: guard in positive form, pop instead of del', edits=[
+        (_T, _T_CHK, "                if pid in self._pilots:\n"
+                     "                    self._pilots.pop(pid)\n"
+                     "                else:\n"
+                     "                    raise ValueError('pilot %s not removed' % pid)\n")]),
+    dict(name='TaskManager.remove_pilots: loop variable renamed, list copied for the walk', edits=[
+        (_T, "            for pid in pilot_ids:\n" + _T_CHK,
+             "            for uid in list(pilot_ids):\n" + _T_CHK.replace("pid", "uid"))]),
+    dict(name='TaskManager.add_pilots: append before the store', edits=[
+        (_T, _T_STORE, "                pilot_docs.append(pilot_dict)\n"
+                       "                self._pilots[pid] = pilot\n")]),
+    dict(name='Session._get_pilot_sandbox: key inline, uid in a local for the path', edits=[
+        (_S, _S_PID, _S_PID.replace("pid = pilot['uid']", "uid = pilot['uid']").replace("if pid not", "if pilot['uid'] not")),
+        (_S, _S_PATH, "                pilot_sandbox.path += '/%s/' % uid\n"),
+        (_S, _S_FILL, _S_FILL.replace("[pid]", "[uid]"))]),
+    dict(name='Session._get_pilot_sandbox: cache section in a local, key (resource, uid)', edits=[
+        (_S, _S_PID, _S_PID.replace("pid = pilot['uid']", "pid = (pilot['description'].get('resource'), pilot['uid'])")
+                           .replace("self._cache['pilot_sandbox']:", "self._cache['pilot_sandbox']:\n                cache = self._cache['pilot_sandbox']")),
+        (_S, _S_FILL, _S_FILL.replace("                self._cache['pilot_sandbox'][pid] =", "                cache[pid] ="))]),
+    dict(name='Session._get_pilot_sandbox: path built by format, setdefault fill', edits=[
+        (_S, _S_PATH, "                pilot_sandbox.path = '%s/%s/' % (pilot_sandbox.path, pid)\n"),
+        (_S, "                self._cache['pilot_sandbox'][pid] = pilot_sandbox\n",
+             "                self._cache['pilot_sandbox'].setdefault(pid, pilot_sandbox)\n")]),
 ]
